@@ -18,16 +18,16 @@ func init() {
 	register(&Rule{ID: "TS-SERVE", Floor: 2,
 		Doc: "in every handler that serves stored content (http.ServeContent over a BlobGet reader) the Docker-Content-Digest header is the String() of the same digest value that was passed to BlobGet, the Content-Type is a constant or the media type of the same descriptor, and both headers are set on every path before the content is served",
 		Run: runServe})
-	register(&Rule{ID: "TS-FILTER-HDR", Floor: 3,
+	register(&Rule{ID: "TS-FILTER-HDR", Floor: 2,
 		Doc: "in the referrers read handler every path to a body write of cached or filtered data has passed the ‘filter is empty’ edge or has set the OCI-Filters-Applied header",
 		Run: runFilterHdr})
-	register(&Rule{ID: "TS-PAGE", Floor: 5,
+	register(&Rule{ID: "TS-PAGE", Floor: 3,
 		Doc: "the referrers splitter appends a page to its result only on the ‘len(page) ≤ limit’ edge of that same page; the handler serves the unsplit response only on the ‘len ≤ limit’ edge",
 		Run: runPage})
 	register(&Rule{ID: "TS-SORT", Floor: 1,
 		Doc: "in the tag-list handler the tag slice is filled, then sorted on every path, then truncated, then marshalled — no append after the sort, no truncation before it",
 		Run: runSort})
-	register(&Rule{ID: "TB-ERRPAIR", Floor: 40,
+	register(&Rule{ID: "TB-ERRPAIR", Floor: 30,
 		Doc: "every error document written by a handler follows a constant 4xx status written in the same block; the condition that leads there (failed callee / sentinel error / test, with the source of its argument) maps to one OCI code at all sibling sites, and to the code the frozen condition→code table gives for it",
 		Run: runErrPair})
 }
